@@ -383,7 +383,8 @@ def run_check(mod, modname, prop, tier, seed, jobs):
     replay_paths = []
     rc = 0
     if fresh:
-        os.makedirs(os.path.join(VERIF, "replays"), exist_ok=True)
+        rdir = os.environ.get("VERIF_REPLAY_DIR", os.path.join(VERIF, "replays"))
+        os.makedirs(rdir, exist_ok=True)
         for num, (cnt, v) in enumerate(fresh[:10]):
             # every failure is re-executed once from its recorded case before it is reported
             try:
@@ -395,7 +396,7 @@ def run_check(mod, modname, prop, tier, seed, jobs):
                 sys.stderr.write("internal error: violation did not reproduce on replay: %s\n"
                                  % json.dumps(v)[:3000])
                 return 2
-            path = os.path.join(VERIF, "replays", "%s-%d.json" % (prop, num))
+            path = os.path.join(rdir, "%s-%d.json" % (prop, num))
             rec = dict(v)
             rec["property"] = prop
             rec["occurrences"] = cnt
